@@ -26,6 +26,8 @@ dquote: /"/
 'type': /type/
 'func': /func/
 kw-with-dash: /kw/
+'T1': /T1/
+'T2': /T2/
 
 :: parser
 
@@ -36,5 +38,5 @@ item-list : item | item-list item ;
 item :
     '+' | '%' | 'a-b' | '\\' | "else" | '::' | '->' | '(?=' | '$' | 'x1' | '_' | 'foo_' | 'Zfoo'
   | '\'' | dquote | '.5' | 'type' | 'func' | kw-with-dash | type | func_ ;
-type : '+' '+' ;
-func_ : '%' '%' ;
+type : 'T1' '+' ;
+func_ : 'T2' '%' ;
